@@ -34,6 +34,7 @@ TraceSpec == TraceInit /\ [][TraceNext]_tvars
 
 \* high-water mark of consumed trace lines (register 1)
 HighWater == IF l > TLCGet(1) THEN TLCSet(1, l) ELSE TRUE
-TraceAccepted == TLCGet(1) = Len(Trace) + 1
+TraceAccepted == IF TLCGet(1) = Len(Trace) + 1 THEN TRUE
+                 ELSE PrintT(<<"REJECTED_AT_LINE", TLCGet(1)>>) /\ FALSE
 TraceView == <<view, l>>
 =============================================================================
